@@ -15,8 +15,9 @@ Definition site_eqb (a b : string * string * string * string) : bool :=
 Definition benign_sites : list (string * string * string * string) :=
   [ (* frozenset( *overlap_metrics): the set holds exactly one tuple (one registry key per axes set) *)
     ("grid.py", "get_metric", "star", "overlap_metrics");
-    (* in that branch the name is rebound to a list (the analysis is per name) *)
-    ("grid.py", "get_metric", "star", "possible_metric_vars");
+    (* in that branch the name is rebound to a list (the analysis is per name): the list of
+       the registered metrics of every block of a partition, in the order of the blocks *)
+    ("grid.py", "get_metric", "for", "possible_metric_vars");
     (* builds the list shown in an error message; emptiness is all that matters *)
     ("grid.py", "set_metrics", "comprehension", "metric_axes");
     (* any(...) over the positions: order-insensitive *)
